@@ -173,8 +173,39 @@ macro_rules! frost_suite {
             let flip = |b: &mut [u8], lo: usize, hi: usize| { let p = lo * 8 + (c.pos as usize) % ((hi - lo) * 8); b[p / 8] ^= 1 << (p % 8); };
             const NS_: usize = GroupPrivateKey::ENC_LEN;
             const NE_: usize = GroupPublicKey::ENC_LEN;
-            match c.corruption % 10 {
+            // Edwards suites, 1 corrupted history in 4: an element of the VSS commitment or a nonce commitment is shifted by a
+            // low-order point (a change no bit-flip class produces): the decoder must refuse it or every verification must
+            let mut corruption = c.corruption % 10;
+            if $ext && c.corruption != 0 && c.val % 4 == 0 {
+                corruption = 10 + (c.val / 4) % 2;
+            }
+            match corruption {
                 0 => {}
+                10 => {
+                    tags.push("torsion_shift_vss_element");
+                    let mut e = VSSElement::encode_list(&vss);
+                    let j = if vss.len() > 1 { 1 + (c.pos as usize) % (vss.len() - 1) } else { 0 };
+                    if let Some(sh) = torsion_shift(name, &e[j * NE_..(j + 1) * NE_], c.val / 8) {
+                        e[j * NE_..(j + 1) * NE_].copy_from_slice(&sh);
+                        if let Some(bad) = VSSElement::decode_list(&e) {
+                            for (i, s) in shares.iter().enumerate().take(64) {
+                                req!(fails, evals, name, !s.verify_split(&bad), "corruption:vss_torsion_accepted", "share {} passes verify_split against a commitment whose element {} was shifted by a low-order point", i + 1, j);
+                            }
+                        }
+                    }
+                }
+                11 => {
+                    tags.push("torsion_shift_commitment");
+                    let mut e = enc_list.clone();
+                    // a commitment is identifier || hiding point || binding point
+                    let off = NS_ + NE_ * ((c.pos as usize) % 2);
+                    if let Some(sh) = torsion_shift(name, &e[off..off + NE_], c.val / 8) {
+                        e[off..off + NE_].copy_from_slice(&sh);
+                        if let Some(list) = Commitment::decode_list(&e) {
+                            req!(fails, evals, name, !signer_pks[signer_of[0]].verify_signature_share(sig_shares[0], &list, group_pk, &c.msg), "corruption:commitment_torsion_accepted", "signature share verifies against a list whose first commitment was shifted by a low-order point");
+                        }
+                    }
+                }
                 1 => {
                     tags.push("corrupt_share_sk");
                     let mut e = shares[signer_of[0]].encode();
@@ -281,6 +312,16 @@ macro_rules! frost_suite {
             (fails, evals, tags)
         }
     };
+}
+
+/// Edwards suites: the encoding of (decoded point + a low-order point); None for the other suites or invalid input
+fn torsion_shift(label: &str, enc: &[u8], which: u8) -> Option<Vec<u8>> {
+    let g = match label { "ed25519" => 0usize, "ed448" => 1usize, _ => return None };
+    let r = crate::points::rg(g);
+    let p = r.decode(enc)?;
+    let tors: Vec<_> = crate::points::refs().torsion[g].iter().filter(|t| !r.is_neutral(t)).cloned().collect();
+    let t = &tors[which as usize % tors.len()];
+    Some(r.encode(&r.add(&p, t)))
 }
 
 /// (crrl plain verifier, reference verifier) for the Ed25519 / Ed448 suites
